@@ -206,12 +206,23 @@ pub fn check_state(ctx: &mut Ctx, s: &St) {
     obs!("get_byte_slice_from", r.get_byte_slice(a..).map(|x| x.to_string()), want_from);
     let want_to: Option<String> = if a <= m.len() && m.is_char_boundary(a) { Some(m[..a].to_string()) } else { None };
     obs!("get_byte_slice_to", r.get_byte_slice(..a).map(|x| x.to_string()), want_to);
-    if a < m.len() {
-      let want_incl: Option<String> = if m.is_char_boundary(a + 1) { Some(m[..=a].to_string()) } else { None };
-      obs!("get_byte_slice_to_inclusive", r.get_byte_slice(..=a).map(|x| x.to_string()), want_incl);
+    // inclusive ends, also at and beyond the length (out of bounds)
+    let want_incl: Option<String> = if a < m.len() && m.is_char_boundary(a + 1) { Some(m[..=a].to_string()) } else { None };
+    obs!("get_byte_slice_to_inclusive", r.get_byte_slice(..=a).map(|x| x.to_string()), want_incl.clone());
+    if let Some(first) = m.char_indices().nth(1).map(|x| x.0) {
+      let want2: Option<String> = if first <= a + 1 && a < m.len() && m.is_char_boundary(a + 1) { Some(m[first..=a].to_string()) } else { None };
+      obs!("get_byte_slice_inclusive", r.get_byte_slice(first..=a).map(|x| x.to_string()), want2);
     }
   }
   obs!("get_byte_slice_full", r.get_byte_slice(..).map(|x| x.to_string()), Some(m.clone()));
+  // out-of-bounds ranges at the edge of usize: None, not an arithmetic panic
+  obs!("get_byte_slice_inclusive_max", r.get_byte_slice(0..=usize::MAX).map(|x| x.to_string()), None::<String>);
+  obs!(
+    "get_byte_slice_excluded_start_max",
+    r.get_byte_slice((std::ops::Bound::Excluded(usize::MAX), std::ops::Bound::Unbounded)).map(|x| x.to_string()),
+    None::<String>
+  );
+  obs!("get_byte_slice_exclusive_max", r.get_byte_slice(0..usize::MAX).map(|x| x.to_string()), None::<String>);
   ctx.traces_validated += 1;
 }
 
